@@ -226,4 +226,46 @@ theorem boundOKSkew_all_windows (I B S : Int) (hI : 0 < I) (hB : 0 ≤ B) (hS : 
 
 example : Spec.boundOK 10 2 [5, 5, 15, 25] = true ∧ Spec.boundOK 10 2 [5, 5, 5, 6, 25] = false := by decide
 
+/-- **C18.3** `interval_oracle_sound` — the wall-clock oracle (`oracle boundiv`, `S = 0`: a hook
+that runs in one queue). Of every execution the harness knows an interval `[lo, hi]` that contains its
+grant: `lo` = a moment before its `RateLimitWait` call, `hi` = the start time written by the hook
+process (no assumption on how long a process takes to start). Whatever the request times were, the
+observation of a hook that respects its limiter is accepted; so a rejected observation is a real
+violation of the bound, never a timing artefact. Every execution counts — retries of a failed task too. -/
+theorem interval_oracle_sound (l : Lim) (hinf : l.inf = false) (hI : 0 < l.I) (hB : 1 ≤ l.B)
+    (ts : List Int) (hsorted : ts.Pairwise (· ≤ ·)) (h0 : ∀ u ∈ ts, 0 ≤ u)
+    (tr : List (Int × Int × Int)) (hg : tr.map (·.2.1) = grants l (init l) ts)
+    (hmem : ∀ p ∈ tr, p.1 ≤ p.2.1 ∧ p.2.1 ≤ p.2.2) :
+    Spec.boundOKIv l.I l.B 0 (tr.map fun p => (p.1, p.2.2)) = true := by
+  apply boundOKIv_of_windows l.I l.B 0 tr hmem
+  intro t T hT
+  rw [hg, Int.add_zero]
+  exact token_bucket_bound l hinf hI hB ts hsorted h0 t T hT
+
+/-- **C18.3′** the same for a hook that runs in several queues (request times in any order): the
+observation is accepted with any allowance `S` that covers the total backward step of the request
+times (the clock-read skew of `token_bucket_bound_skew`). All executions of the hook, from all of
+its queues, are counted against the one bucket. -/
+theorem interval_oracle_sound_skew (l : Lim) (hinf : l.inf = false) (hI : 0 < l.I) (hB : 1 ≤ l.B)
+    (ts : List Int) (S : Int) (hS : backSteps 0 ts ≤ S)
+    (tr : List (Int × Int × Int)) (hg : tr.map (·.2.1) = grants l (init l) ts)
+    (hmem : ∀ p ∈ tr, p.1 ≤ p.2.1 ∧ p.2.1 ≤ p.2.2) :
+    Spec.boundOKIv l.I l.B S (tr.map fun p => (p.1, p.2.2)) = true := by
+  apply boundOKIv_of_windows l.I l.B S tr hmem
+  intro t T hT
+  rw [hg]
+  have h1 := token_bucket_bound_skew l hinf hI hB ts t T hT
+  have h2 : ceilDiv (T + backSteps 0 ts) l.I ≤ ceilDiv (T + S) l.I := by
+    unfold ceilDiv
+    exact Int.ediv_le_ediv hI (by omega)
+  omega
+
+/-- Non-vacuity / what the oracle rejects: `I = 400`, `B = 1`. Three executions from three queues
+that all were queued at 0 and started by 12 (one bucket per queue), rejected even with an allowance
+of 20; a task that fails and is retried after a back-off of 20 without taking a token (each retry is
+called after the previous attempt started); and an observation of a limiter that is respected. -/
+example : Spec.boundOKIv 400 1 20 [(0, 10), (0, 12), (0, 11)] = false ∧
+    Spec.boundOKIv 400 1 0 [(0, 10), (10, 40), (40, 75), (75, 110)] = false ∧
+    Spec.boundOKIv 400 1 0 [(0, 10), (0, 412), (0, 811), (10, 1215)] = true := by decide
+
 end ShellOp.RateLimit.C18
